@@ -54,9 +54,14 @@ fn main() {
     match prop.as_str() {
         "C01" => props::c01::run(&mut rep, &tier, seed),
         "C02" => props::c02::run(&mut rep, &tier, seed),
+        "C03" => props::c03::run(&mut rep, &tier, seed),
+        "C04" => props::c04::run(&mut rep, &tier, seed),
+        "C08" => props::c08::run(&mut rep, &tier, seed),
         "C09" => props::c09::run(&mut rep, &tier, seed),
+        "C10" => props::c10::run(&mut rep, &tier, seed),
         "C11" => props::c11::run(&mut rep, &tier, seed),
         "C15" => props::c15::run(&mut rep, &tier, seed),
+        "C16" => props::c16::run(&mut rep, &tier, seed),
         "C20" => props::c20::run(&mut rep, &tier, seed),
         "C13" => props::c13::run(&mut rep, &tier, seed),
         "C14" => props::c14::run(&mut rep, &tier, seed),
